@@ -316,11 +316,16 @@ def doIneq (p : Probe) : List String :=
   let rowsOk := hard.all fun e => e.1 ≤ tolOf e.2.2.1 e.2.1
   let feasOk := hard.all fun e => if e.2.2.1 == 2 then e.2.2.2 ≥ -(tolOf 2 e.2.1) else absF e.2.2.2 ≤ tolOf 1 e.2.1
   let signOk := (signs.zip q.x).all fun (sg, xv) => !(sg < 0.0) || xv ≤ 1e-12
+  -- sign restrictions cannot be read back (cl1 overwrites delta1 with its answer); what can be seen is that the restricted
+  -- variables (absent, supersaturated phases) actually take the allowed sign: counted here, judged per run as a fraction
+  let restricted := (signs.zip q.x).filter fun (sg, _) => sg < 0.0
+  let moved := (restricted.filter fun (_, xv) => xv < 0.0).length
   let opt := evals.filter fun e => e.2.2.1 != 2
   let optTight := (opt.filter fun e => e.1 ≤ 1e-5 * e.2.1 + 1e-10).length
   base ++ [pl "ineq-rows" hard.length rowsOk worst.1 worst.2.1, -- informational (always ok): cl1 may return kode 0 with a vector that violates its own inequality rows / sign
            -- restrictions; `reset()` is what protects the amounts then (see `restrictions_respected`)
-           pl "ineq-cl1-feasible" hard.length true (b2f feasOk) 1.0, pl "ineq-cl1-signs" n true (b2f signOk) 1.0, pl "ineq-opt-rows" opt.length true optTight.toFloat opt.length.toFloat]
+           pl "ineq-cl1-feasible" hard.length true (b2f feasOk) 1.0, pl "ineq-cl1-signs" n true (b2f signOk) 1.0, pl "ineq-opt-rows" opt.length true optTight.toFloat opt.length.toFloat,
+           pl "ineq-sign-use" restricted.length true moved.toFloat restricted.length.toFloat]
 
 partial def loop (h : IO.FS.Stream) (out : IO.FS.Stream) (b : Blk) (p : Probe) : IO Unit := do
   let line ← h.getLine
